@@ -36,7 +36,28 @@ CHECKS = {
             "tuples), yearly totals and balances of the truncated / to-date runs must be the restriction of the full behaviour; AppendOnly is checked on the design.", "2, 6 C09"),
     "C10": ("model_checking", "For sampled (quick) / all (thorough) windows from<=to over and around the transaction dates: shown transactions, taxable events and fractions are exactly "
             "those dated in the window with unchanged figures; balances, average price and k/n labels are those at the to-date; yearly lines start with the from-date's year.", "4.1, 6 C10"),
+    "C11": ("model_checking", "The sheet automaton and column semantics of spec/Rp2Sheet.tla decide every sheet: MC_Sheet checks the automaton against the documented grammar over all row-token "
+            "sequences (<= 7 rows quick, <= 9 thorough) and TLC-generated histories are laid out under the default layout, every transposition of two mapped columns, every optional column unmapped / "
+            "moved, random injective layouts with decoy columns, all six table orders, blank rows, permuted rows, 11-decimal units; each sheet is written cell by cell, read by the real parse_ods and "
+            "the parsed transactions (fields, defaults, row numbers, artificial fee disposals) are compared by TLC with what the specification reads from the same cells.", "4.5, 6 C11"),
+    "C12": ("model_checking", "API level: every malformed token sequence of MC_Sheet and every documented field fault at every row and field position of valid base sheets must be rejected by parse_ods "
+            "(the specification, not the harness, classifies a sheet as malformed). CLI level: TLC enumerates option tuples x fault classes (MC_Run); unsupported options, sheet / field / config "
+            "faults, missing sheets, overdrafts and overspends must give a non-zero exit, an error message and no report (Rp2Run!RunFails).", "4.5, 4.6, 6 C12"),
+    "C16": ("model_checking", "TLC enumerates the option matrix country x method x language x date-filter shape x schedule shape x -n (MC_Run); the supported tuples are concretised (dates on, around and "
+            "away from the transactions; schedules placed relative to the first year; single/multi asset, sparse years, fully sold, income-only inputs) and run in fresh processes; exit 0, exactly "
+            "the expected report files, each a readable document (Rp2Run!RunFails). Pairwise-covering sample in quick, far larger sample in thorough.", "4.6, 6 C16"),
+    "C17": ("model_checking", "Groups of end-to-end runs on one abstract input (repeat, other PYTHONHASHSEEDs, dirty output directory, permuted rows, permuted tables, asset subsets) must be explained by one "
+            "set of computed results (normalised ComputedData per asset) and, for byte-identical inputs, identical content.xml digests (Rp2Run!GroupFails).", "2, 4.6, 6 C17"),
+    "C18": ("model_checking", "Audited end-to-end runs (sys.addaudithook installed before rp2 is imported, new interpreter, python -B) of every entry point on valid input and on each fault class: every "
+            "effect must be an action of Rp2Run (reads anywhere; writes/renames/removals only under the output directory and ./log; no action exists for socket, name resolution or process "
+            "events), inputs byte-identical afterwards; plus the import facts of every source file fed to the same specification.", "4.6, 6 C18, 8"),
 }
+
+RUN_TECH = ("TLA+ spec Rp2Run / Rp2Sheet; TLC enumerates option tuples (MC_Run) and sheet structures (MC_Sheet, checked against the documented grammar); each is concretised and run on the real "
+            "rp2 (parse_ods in-process, entry points in fresh processes); TLC validates what every run left behind (Trace_Run / Trace_Sheet)")
+RUN_NOTE = ("Trusted: the concretiser (ezodf writer, .ini writer), the observation of exit status / files / audit events, the list of shipped template languages read from the tree under test, "
+            "TLC. Product constants (accepted methods, generators, default languages) are stated in the specification from the documentation.")
+ENGINE_OF = {"C11": "sheet", "C12": "sheet+run", "C16": "run", "C17": "run", "C18": "run"}
 
 
 def main():
@@ -50,19 +71,23 @@ def main():
             "thorough_cmd": f"./check {pid} --tier thorough",
             "evidence_file": f"/verif/evidence/{pid}.json",
             "replay_cmd_template": f"./check {pid} --replay {{path}}",
-            "engine": "ledger",
+            "engine": ENGINE_OF.get(pid, "ledger"),
             "level_claimed": {"category": cat, "text": text, "design_ref": ref},
-            "level_note": LEDGER_NOTE,
-            "technique": LEDGER_TECH,
+            "level_note": RUN_NOTE if pid in ENGINE_OF else LEDGER_NOTE,
+            "technique": RUN_TECH if pid in ENGINE_OF else LEDGER_TECH,
         })
     na = [{"property_id": p["id"], "reason": "check not built yet (work in progress; see DESIGN.md section 10)"} for p in props if p["id"] not in CHECKS]
     m = {
         "version": 1,
         "setup_cmd": "./setup.sh",
-        "hooks": {"guard": "RP2_VERIF", "enable": "RP2_VERIF=1 (no hook is committed: C01-C10 observe rp2 through its API)",
+        "hooks": {"guard": "RP2_VERIF", "enable": "RP2_VERIF=1 (no hook is committed to eprbell/rp2: the checks observe it through its API, its files, an interpreter audit hook and, for the computed data of CLI runs, a wrapper installed by the harness inside the child process)",
                   "baseline_off_cmd": "cd /repo && env -u RP2_VERIF /venv/bin/python -m pytest -ra -q -p no:cacheprovider --timeout=900 --continue-on-collection-errors",
                   "source_commits": [], "add_only": True},
-        "engines": [{"name": "ledger", "path": "/verif/harness/ledger_main.py", "serves_properties": sorted(CHECKS),
+        "engines": [{"name": "sheet", "path": "/verif/harness/sheet_main.py", "serves_properties": ["C11", "C12"],
+                     "kind_free_text": "TLC model checking of spec/MC_Sheet.tla + generated spreadsheets read by the real parse_ods + TLC trace validation (spec/Trace_Sheet.tla)"},
+                    {"name": "run", "path": "/verif/harness/run_main.py", "serves_properties": ["C12", "C16", "C17", "C18"],
+                     "kind_free_text": "TLC enumeration of option tuples (spec/MC_Run.tla) + end-to-end runs of the entry points in fresh processes + TLC trace validation (spec/Trace_Run.tla)"},
+                    {"name": "ledger", "path": "/verif/harness/ledger_main.py", "serves_properties": sorted(p for p in CHECKS if p not in ENGINE_OF),
                      "kind_free_text": "TLC model checking of spec/MC_Ledger.tla + TLC-generated histories (spec/Gen_Hist.tla) run on the real rp2 + TLC trace validation (spec/Trace_Ledger.tla)"}],
         "checks": checks,
         "notes": "Model-based verification with an explicit TLA+ specification (spec/*.tla); see DESIGN.md. Exit codes: 0 held, 1 VIOLATION, 2 machinery failure.",
